@@ -1160,4 +1160,47 @@ theorem fixInPlace_nodup (doc : Doc) (files : Files) (n : Nat) (hb : doc.Below n
 abbrev DefinesM (doc : Doc) (files : Files) := Defines doc.morphs doc.includes files FileDoc.morphs
 abbrev DefinesB (doc : Doc) (files : Files) := Defines doc.bios doc.includes files FileDoc.bios
 
+/-! ### where the loop stops -/
+
+theorem fixCells_refs_nil (em eb : Dict) (cs : List Cell) (n : Nat) (he : (fixCells em eb cs n).err = none) :
+    ∀ x ∈ (fixCells em eb cs n).val, x.m.refs = [] ∧ x.b.refs = [] := by
+  intro x hx
+  have hlen := fixCells_length em eb cs n
+  obtain ⟨k, hk, rfl⟩ := List.getElem_of_mem hx
+  have hp : (cs[k]'(by omega), (fixCells em eb cs n).val[k]) ∈ cs.zip (fixCells em eb cs n).val := by
+    rw [List.mem_iff_getElem]
+    exact ⟨k, by simp [hlen]; omega, by simp⟩
+  have ⟨_, _, _, p4, p5⟩ := fixCells_post em eb cs n he _ hp
+  exact ⟨p4.refs_nil, p5.refs_nil⟩
+
+/-- a prefix that resolves is processed completely, then the loop goes on with the rest -/
+theorem fixCells_append_ok (em eb : Dict) : ∀ (pre rest : List Cell) (n : Nat), (fixCells em eb pre n).err = none →
+    fixCells em eb (pre ++ rest) n =
+      ⟨(fixCells em eb pre n).val ++ (fixCells em eb rest (fixCells em eb pre n).next).val,
+        (fixCells em eb rest (fixCells em eb pre n).next).next,
+        (fixCells em eb rest (fixCells em eb pre n).next).err,
+        (fixCells em eb pre n).writes ++ (fixCells em eb rest (fixCells em eb pre n).next).writes⟩
+  | [], rest, n, _ => by simp [fixCells]
+  | c :: pre, rest, n, h => by
+    cases he : (fixCell em eb c n).err with
+    | some e => rw [fixCells_of_err he] at h; simp at h
+    | none =>
+      rw [fixCells_of_ok he] at h
+      simp only at h
+      rw [cons_append, fixCells_of_ok he, fixCells_of_ok he, fixCells_append_ok em eb pre rest _ h]
+      simp
+
+theorem fixSlot_missing (d : Dict) (cid : ObjId) (s : Slot) (n : Nat) (a : String) (ha : a ∈ s.refs)
+    (hg : d.get? a = none) : (fixSlot d cid s n).err = some (.keyError a) := by
+  obtain ⟨attr, elem⟩ := s
+  cases attr with
+  | none => cases elem <;> simp [Slot.refs] at ha
+  | some a' =>
+    cases elem with
+    | some e => simp [Slot.refs] at ha
+    | none =>
+      simp only [Slot.refs, mem_singleton] at ha
+      subst ha
+      simp [fixSlot, hg]
+
 end NmlVerif.FixExternal
